@@ -1670,8 +1670,13 @@ func (c *Compiler) compileFor(node *ast.For) error {
 
 	// Compile the init statement if present
 	if node.Init() != nil {
-		if err := c.compile(node.Init()); err != nil {
+		init := node.Init()
+		if err := c.compile(init); err != nil {
 			return err
+		}
+		// If the init statement is an expression, pop the value so its ignored
+		if init.IsExpression() {
+			c.emit(op.PopTop)
 		}
 	}
 
